@@ -1,16 +1,27 @@
 """C05 - generated proxy and stub code compiles and the two halves are mutual inverses.
 
-1. TLC design check of IdlRpc.tla (Idl's interface generator + operations call /
-   subscribe / emit / set / get; invariants: a get returns the latest set, an
-   event is delivered iff subscribed, only carriable types, the Idl invariants).
+1. TLC design checks of IdlRpc.tla (Idl's interface generator; the package = the
+   assembled interface + the interfaces its actions refer to (Probe, Relay, itself);
+   operations call / subscribe / emit / set / get / use / via; object references as
+   part of the state: handles held by both sides, the service's object table with
+   forwarders for client-hosted objects).  Invariants: a get returns the latest set
+   (value and objects), an event is delivered iff subscribed, every reference
+   received denotes the object sent, a call through a received reference is executed
+   once by that object, the implementation holds service ids only, forwarders are
+   sound, the Idl invariants.
 2. TLC exports complete behaviours: exhaustively for every one-action interface
-   of the pool (every action x every pair of operations), by simulation for
-   interfaces of up to three actions and longer operation sequences.
+   of the pool (every action x every pair of operations x both layouts of the IDL
+   text), by simulation for interfaces of up to three actions and longer operation
+   sequences.
 3. The harness renders the specification's IDL text, runs the repository's
-   generator at check time, compiles every interface in its own package of a
-   scratch module (plus IDL packages of three interfaces), and replays every
-   behaviour through generated proxy -> in-process server -> generated stub,
-   comparing each observation with the specification's.
+   generator at check time, compiles every package in a scratch module (plus IDL
+   packages of three plain interfaces), and replays every behaviour through
+   generated proxy -> in-process server -> generated stub, comparing each
+   observation with the specification's; objects travel as generated proxies /
+   object references, hosted by the implementation (Create<Itf> on its service) or
+   by the client (Create<Itf> on the proxy's service reference), and every
+   reference that arrives is called (ident): the call must be executed once, by
+   the object that was sent.
 """
 import json, os
 from vlib import Infra
@@ -18,22 +29,33 @@ from vlib import Infra
 
 def run(ctx):
     thorough = ctx.tier == "thorough"
-    ctx.design_check("IdlRpc", "MCIdlRpc_thorough.cfg" if thorough else "MCIdlRpc.cfg",
-                     workers=8 if thorough else 4, timeout=2400)
-    g = ctx.tlc("GenIdlRpc", "GenIdlRpc_thorough.cfg" if thorough else "GenIdlRpc.cfg", workers=1, timeout=1200, count=False)
+    # interface theorems for every interface of up to two (thorough: three) actions (no operations); operation
+    # theorems for every action alone x three operations; thorough: every pair of actions x two operations
+    ctx.design_check("IdlRpc", "MCIdlRpc_itf_thorough.cfg" if thorough else "MCIdlRpc_itf.cfg", workers=4, timeout=2400)
+    ctx.design_check("IdlRpc", "MCIdlRpc.cfg", workers=4, timeout=2400)
+    if thorough:
+        ctx.design_check("IdlRpc", "MCIdlRpc_thorough.cfg", workers=4, timeout=3000)
+        ctx.design_check("IdlRpc", "MCIdlRpc_deep.cfg", workers=4, timeout=3000)     # every action alone x four operations
+    g = ctx.tlc("GenIdlRpc", "GenIdlRpc_thorough.cfg" if thorough else "GenIdlRpc.cfg", workers=1, timeout=2400, count=False)
     if not g.ok:
         raise Infra("IdlRpc export failed: %s\n%s" % (g.violated, g.out[-3000:]))
-    single = g.printed("S")
+    exported = g.printed("S")
+    single = thin(exported, ctx.seed, thorough)
     sim = ctx.tlc("GenIdlRpc", "GenIdlRpc_sim.cfg", workers=1, timeout=2400, count=False,
-                  simulate="num=%d" % (6000 if thorough else 600), depth=12, seed=ctx.seed)
+                  simulate="num=%d" % (2500 if thorough else 220), depth=12, seed=ctx.seed)
     if sim.violated or not sim.sim:
         raise Infra("IdlRpc simulation failed: %s" % sim.out[-3000:])
     multi = [s for s in sim.printed("S") if len(s["key"]) > 1]
     # bound the number of distinct interfaces (each is a Go package to compile)
     cap_itf = 400 if thorough else 40
-    keys, kept = {}, []
+    keys, kept, devs = {}, [], {}
     for s in multi:
-        k = tuple(s["key"])
+        k = (tuple(s["key"]), s["layout"])
+        dev = [o["dev"] for o in s["ops"] if o.get("dev")]
+        if dev:                       # behaviours that run into a named deviation (a call that never returns)
+            devs[dev[0]] = devs.get(dev[0], 0) + 1
+            if devs[dev[0]] > 2:
+                continue
         if k not in keys:
             if len(keys) >= cap_itf:
                 continue
@@ -57,7 +79,8 @@ def run(ctx):
     if ex.get("packages_compiled", 0) < 20 or ex.get("scenarios_run", 0) < 500:
         raise Infra("too little was compiled / run: %s" % ex)
     # binding self-test: a corrupted expectation must be reported by the compiled program
-    cands = [s for s in single if s["cls"] == "plain" and s["ops"][0]["op"] == "call" and s["ops"][0]["ret"]]
+    cands = [s for s in single if s["cls"] == "plain" and s["ops"][0]["op"] == "call" and s["ops"][0]["ret"]
+             and not s["ops"][0].get("robjs")]
     first = dict(cands[0])
     first["other_ret"] = [s for s in cands if s["key"] == first["key"] and s["ops"][0]["ret"] != first["ops"][0]["ret"]][0]["ops"][0]["ret"][0]
     st = selftest(ctx, first)
@@ -67,16 +90,51 @@ def run(ctx):
         ctx.sample(s)
     ctx.extra.update({"scenario_classes": classes, "fail_count": res.get("fail_count"),
                       "selftest_corruptions_detected": st, "exhaustive": True,
-                      "explanation": "every action of the pool alone x every pair of operations (exhaustive), interfaces of up to "
-                                     "three actions x six operations (simulation); code generated by stub.GeneratePackage at check "
-                                     "time, compiled per interface and in IDL packages of three, behaviours replayed through the "
-                                     "generated proxy and stub over an in-process server"})
+                      "explanation": "every action of the pool alone x every pair of operations x both layouts of the IDL text "
+                                     "(exhaustive; of the second layout an even sample is replayed), interfaces of up to three "
+                                     "actions x six operations (simulation); code generated by stub.GeneratePackage at check time, "
+                                     "one Go package per IDL package (interface + the interfaces it refers to) and IDL packages of "
+                                     "three plain interfaces, behaviours replayed through the generated proxy and stub over an "
+                                     "in-process server; objects hosted by the implementation and by the client travel as generated "
+                                     "proxies, every reference that arrives is called"})
     ctx.extra.update(ex)
     ctx.assumptions += [
         "the correspondence between IDL actions and generated Go methods is positional (declaration order = uid order per kind)",
-        "object references ('o'), unknown ('X') and void parameters are not exchanged as values; dynamic values are i / s / b",
+        "unknown ('X') and void parameters are not exchanged as values; dynamic values are i / s / b; the generic object "
+        "reference ('obj') carries Probes",
+        "objects are told apart by a method ident() -> int32 that every exchanged interface has; a reference is observed by calling "
+        "it from outside any executing object (a call from inside the object that is referred to would wait for itself by design)",
+        "the client reaches the service through one connection for all its proxies, like bus/session (the server's local session "
+        "opens one per proxy, and an object hosted by the client is reachable through the connection it was created on only)",
+        "a call through generated code that does not return within 10 s counts as hanging (in-process: < 1 ms)",
         "an event emitted after the subscription call returned must arrive within 10 s; events emitted while not subscribed get no verdict",
         "properties are initialised by the implementation during activation (as the generated documentation demands)"]
+
+
+def thin(exported, seed, thorough):
+    """Every behaviour of the first layout is replayed; of the second layout (same operations, other
+    IDL text) an evenly spread sample per interface; behaviours that run into a named deviation of the
+    pinned code (each costs a time-out) a few per deviation."""
+    per_layout = 60 if thorough else 20
+    per_dev = 6 if thorough else 3
+    out, second, devs = [], {}, {}
+    for s in exported:
+        dev = [o["dev"] for o in s["ops"] if o.get("dev")]
+        if dev:
+            devs.setdefault((dev[0], s["layout"]), []).append(s)
+        elif s["layout"] == "aux-last":
+            second.setdefault(tuple(s["key"]), []).append(s)
+        else:
+            out.append(s)
+    for k in sorted(second):
+        l = second[k]
+        step = max(1, len(l) // per_layout)
+        out += l[(seed % step)::step][:per_layout]
+    for k in sorted(devs):
+        l = devs[k]
+        step = max(1, len(l) // per_dev)
+        out += l[(seed % step)::step][:per_dev]
+    return out
 
 
 def selftest(ctx, sc):
